@@ -332,9 +332,17 @@ pub fn structured_words(t: WTy) -> Vec<u64> {
 /// 16-bit "high half" patterns combined with all 2^16 low halves for the narrow lifts.
 pub fn high_patterns(thorough: bool) -> Vec<u64> {
     if thorough {
-        let mut v = Vec::new();
-        push_le2(&mut v, 16);
-        v.extend([0x00FF, 0xFF00, 0x5555, 0xAAAA, 0x0F0F, 0xF0F0, 0x1234, 0xFEDC]);
+        // <=1 bit set / clear, adjacent bit pairs set / clear, a few mixed patterns
+        let mut v: Vec<u64> = vec![0, 0xFFFF];
+        for i in 0..16 {
+            v.push(1 << i);
+            v.push(0xFFFF ^ (1 << i));
+            if i < 15 {
+                v.push(3 << i);
+                v.push(0xFFFF ^ (3 << i));
+            }
+        }
+        v.extend([0x00FF, 0xFF00, 0x5555, 0xAAAA, 0x0F0F, 0xF0F0, 0x1234, 0xFEDC, 0x8001, 0x7FFE]);
         v.sort();
         v.dedup();
         v
